@@ -41,10 +41,10 @@ type part struct {
 	ShardsT int      // worker processes, thorough
 	TimeQ   time.Duration
 	TimeT   time.Duration
-	Race    bool     // build with -race (free-running pass)
-	Tags    string   // extra build tags
-	Env     []string // extra env
-	OnlyT   bool     // part runs in the thorough tier only
+	Race    bool              // build with -race (free-running pass)
+	Tags    string            // extra build tags
+	Env     []string          // extra env
+	OnlyT   bool              // part runs in the thorough tier only
 	NoSubst string            // passed to the instrumenter as -nosubst
 	ModRepl map[string]string // module-cache file (relative to GOMODCACHE) -> file under /verif to put in its place through the overlay
 }
